@@ -17,7 +17,7 @@ ASSUMPTIONS = ["pkbar is replaced by a silent stub only if its import fails in t
                "which samples go to which split is not prescribed by the property; only sizes, partition, pairing and (shuffle off) relative order are asserted"]
 EXHAUSTIVE = {"quick": "n<=16, fractions on 0.1 grid, batch sizes 1..n+3", "thorough": "n<=64, fractions on 0.05 grid, batch sizes 1..n+3"}
 SHARDS_PER_JOB = 1
-SHARD_TIMEOUT = {"quick": 300, "thorough": 1800}
+SHARD_TIMEOUT = {"quick": 900, "thorough": 3600}
 
 
 def gen_cases(tier, seed):
